@@ -29,5 +29,5 @@ Record ploop := mkLoop { pl_line : N; pl_fn : str; pl_index : bool; pl_guard : p
 
 (* ---- exception coverage of a tool's execute() ---------------------------------------------------- *)
 (* a call site: source line, callee (source text of the called expression), the classes caught by each
-   enclosing `try` whose BODY contains the site, innermost first *)
-Record site := mkSite { s_line : N; s_callee : str; s_stack : list (list str) }.
+   enclosing `try` whose BODY contains the site, innermost first; s_ord = k-th occurrence of this callee in the function *)
+Record site := mkSite { s_line : N; s_callee : str; s_ord : N; s_stack : list (list str) }.
